@@ -1,13 +1,31 @@
 mod util;
+mod c08;
 mod c09;
 mod c10;
 mod c11;
 use std::io::Write;
 use util::*;
 
-fn exec_line(line: &str) -> String {
-    let prop = line.split_whitespace().next().unwrap_or("");
+#[derive(Default)]
+struct Ctx {
+    c08: Option<c08::StoreCtx>,
+}
+
+fn exec_line(ctx: &mut Ctx, line: &str) -> String {
+    let mut toks = line.split_whitespace();
+    let prop = toks.next().unwrap_or("");
+    let second = toks.next().unwrap_or("");
     match prop {
+        "c08" => {
+            if second == "cfg" {
+                let (_, m) = parse_line(line);
+                ctx.c08 = None;
+                ctx.c08 = Some(c08::make_store(&m["store"]));
+                "ok".into()
+            } else {
+                match &ctx.c08 { Some(c) => c08::exec_op(c, line), None => "bad-op".into() }
+            }
+        }
         "c09" => c09::exec(line),
         "c10" => c10::exec(line),
         "c11" => c11::exec(line),
@@ -27,6 +45,7 @@ fn main() {
         "run" => {
             let prop = a.rest.get(0).cloned().unwrap_or_default();
             match prop.as_str() {
+                "c08" => c08::generate(&a.tier, a.seed),
                 "c09" => c09::generate(&a.tier, a.seed),
                 "c10" => c10::generate(&a.tier, a.seed),
                 "c11" => c11::generate(&a.tier, a.seed),
@@ -44,9 +63,10 @@ fn main() {
         Some(f) => Box::new(std::io::BufWriter::new(std::fs::File::create(f).unwrap())),
         None => Box::new(std::io::BufWriter::new(std::io::stdout())),
     };
+    let mut ctx = Ctx::default();
     for l in &lines {
         if l.starts_with('#') { writeln!(w, "{}", l).unwrap(); continue; }
-        let o = exec_line(l);
+        let o = exec_line(&mut ctx, l);
         writeln!(w, "{} -> {}", l, o).unwrap();
     }
     w.flush().unwrap();
